@@ -14,7 +14,7 @@ HARN = os.path.join(ROOT, 'harness')
 REPO = '/repo'
 WORK = os.path.join(ROOT, 'work')
 sys.path.insert(0, os.path.join(ROOT, 'run'))
-from props import PROPS, STD_AXIOMS, TRUSTED_BASE  # noqa: E402
+from props import PROPS, STD_AXIOMS, TRUSTED_BASE, FILES  # noqa: E402
 
 ENV = dict(os.environ, CARGO_NET_OFFLINE='true')
 
@@ -220,7 +220,7 @@ def run_real(reqs, build):
 
 
 def correspondence(prop, seed, tier, build):
-    t = 0 if tier == 'quick' else 1
+    t = {'quick': 0, 'thorough': 1, 'escalated': 2}[tier]
     rc, out = sh([harness_bin(build), 'gen', prop, str(seed), str(t)])
     reqs = [l for l in out.split('\n') if l]
     corpus = os.path.join(ROOT, 'corpus', prop + '.req')
@@ -247,7 +247,7 @@ def correspondence(prop, seed, tier, build):
 
 
 def search(prop, seed, tier, build):
-    t = 0 if tier == 'quick' else 1
+    t = {'quick': 0, 'thorough': 1, 'escalated': 2}[tier]
     p = subprocess.run([harness_bin(build), 'search', prop, str(seed), str(t)], stdout=subprocess.PIPE, stderr=subprocess.PIPE, text=True)
     try:
         d = json.loads(p.stdout)
@@ -318,6 +318,14 @@ def check(prop, tier, seed):
     forb = grep_forbidden()
     if forb:
         broken.append({'kind': 'forbidden-construct', 'detail': forb[:10]})
+    # a structural change (not a mere constant) of a function this property depends on: the hand-written model may be stale,
+    # so the correspondence and the search run on their thorough streams even in the quick tier
+    try:
+        fpcur = json.load(open(os.path.join(WORK, 'fingerprints.json')))
+    except (OSError, ValueError):
+        fpcur = {}
+    escal = [c for c in changed if c['change'] != 'constants' and (fpcur.get(c['item'], {}).get('file') in FILES.get(prop, []) or c['change'] in ('removed',) or c['item'] == '?')]
+    run_tier = 'escalated' if (escal and prop != 'C20' and tier == 'quick') else tier
     # 2. correspondence, 3. search
     corr, srch = [], []
     drv_ok = os.path.exists(os.path.join(LEAN, '.lake', 'build', 'bin', 'driver'))
@@ -325,11 +333,11 @@ def check(prop, tier, seed):
         if not os.path.exists(harness_bin(b)):
             continue
         if drv_ok:
-            c = correspondence(prop, seed, tier, b)
+            c = correspondence(prop, seed, run_tier, b)
             corr.append(c)
             if c['mismatches']:
                 broken.append({'kind': 'correspondence', 'build': b, 'count': len(c['mismatches']), 'first': c['mismatches'][:5]})
-        srch.append(search(prop, seed, tier, b))
+        srch.append(search(prop, seed, run_tier, b))
     # 4. verdict
     known = load_known()
     fails = [dict(f, build=s['build']) for s in srch for f in s['fails']]
@@ -372,7 +380,7 @@ def check(prop, tier, seed):
         'search': [{'build': s['build'], 'evaluated': s['evaluated'], 'worst': s['worst'], 'fails': len(s['fails'])} for s in srch],
         'source_changes_vs_baseline_fingerprints': changed,
         'libm_identical': all(c['libm_ulp_mismatches'] == 0 for c in corr),
-        'builds': builds,
+        'builds': builds, 'escalated_to_thorough_streams_because_of': escal,
         'partial': spec.get('partial', []),
     }
     if obligations == 0:
